@@ -354,12 +354,15 @@ def shrink(case, sig_guarded: bool, rounds=8):
 
 
 def run(ctx):
-    gen = core.translate_all()
-    if "Src_vendors.v" not in gen:
-        # fail closed: the formatter classes / vendor modules no longer have a shape the translator can read
-        raise core.CheckFailure("vendor table could not be re-read from the repository: "
-                                + str(gen.get("tr_vendors", "tr_vendors produced nothing")))
     rep = core.proof_stage(ctx, THEOREM_FILE)
+    gen = ctx.coverage["gen_tables"]
+    if "Src_vendors.v" not in gen:
+        # fail closed: the formatter classes / vendor modules no longer have a shape the translator can read.
+        # proof_stage has registered the broken obligation and put the reference table in place, so the
+        # correspondence below still runs and looks for a concrete tree that no longer round-trips.
+        if not (core.COQ / "Gen" / "Src_vendors.v").exists():
+            raise core.CheckFailure("vendor table could not be re-read from the repository: "
+                                    + str(gen.get("tr_vendors", "tr_vendors produced nothing")))
     reg = core.run_impl("c04_runner.py", {"op": "vendors"})
     if sorted(reg) != sorted(VENDORS):
         ctx.add_violation(core.Violation(
